@@ -102,6 +102,13 @@ class Ctl:
                     return b
                 return norm(("proj", b, e))
             return norm(("proj", b, e))
+        if k == "unwrap":
+            b = self.ev_term(t[1], env)
+            if b[0] == "adt":
+                return b[4][0] if b[3] in ("Some", "Ok") else ("bottom",)
+            if b[0] in ("bottom", "free"):
+                return b
+            return ("unwrap", b)
         if k == "discr":
             b = self.ev_term(t[1], env)
             if b[0] == "adt":
@@ -711,76 +718,103 @@ def data_iter_of(c, name):
     return None
 
 
+def inner_int(v):
+    """the integer carried by a value: the value itself, or the single field of a newtype (ChunkCount(n))"""
+    if v is None:
+        return None
+    if v[0] == "adt" and len(v[4]) == 1 and v[2] == 0:
+        return v[4][0]
+    if v[0] in ("int", "sym", "app", "proj"):
+        return v
+    return None
+
+
+def named_locals(st):
+    """(stack index, local, name) of every named local of every activation"""
+    out = []
+    for i, a in enumerate(st.stack):
+        for v in a.body["vars"]:
+            if not v["place"]["proj"]:
+                out.append((i, v["place"]["local"], v["name"], a.fn["path"]))
+    return out
+
+
+def local_at(st, i, l, by_fid=True):
+    if i >= len(st.stack):
+        return None
+    a = st.stack[i]
+    return st.frames.get(a.fid, {}).get(l)
+
+
+def is_plus_one(after, before):
+    if after is None or before is None:
+        return False
+    if before[0] == "int" and after[0] == "int":
+        return after[1] == before[1] + 1
+    return after in (("app", "Add", (before, mk_int(1, "u16"))), ("app", "wrapping_add", (before, mk_int(1, "u16"))))
+
+
 def counter_rules(chk, c, name, X, preds):
+    """C09.O3 — there is a named counter variable h of the transfer routine such that, per attempt:
+    h == 0 when the first chunk follows the acknowledged request; h grows by exactly 1 across every SendData;
+    and DataChunksSent announces h (0 when no chunk was sent)."""
     g = c.g
     x1, x2, x3 = set(X["X1"]), set(X["X2"]), set(X["X3"])
-    # identify the counter local: the user int local of the DataChunksSent-building frame whose value is the announced count
-    def count_term(state, fidmap=None):
-        return None
-    for k in X["X3"]:
-        node = g.nodes[k]
-        # locate the variable holding the announced count on the arrivals (before the join widens both copies independently)
-        holders = set()
-        for pk, e in preds.get(k, []):
-            m = c.ev.detach(e.state, e.value) if e.value is not None else None
-            if m is None or m[0] != "adt" or m[3] != "DataChunksSent":
-                continue
-            cnt = m[4][0][4][0] if m[4][0][0] == "adt" else m[4][0]
-            st = e.state
-            found = None
-            for i, a in enumerate(st.stack):
-                names = {v["place"]["local"]: v["name"] for v in a.body["vars"] if not v["place"]["proj"]}
-                for l, v in st.frames[a.fid].items():
-                    if l in names and v == cnt and a.body["locals"][l]["ty"]["k"] == "int":
-                        found = (i, l, names[l])
-            holders.add(found)
-        if len(holders) != 1 or None in holders:
-            chk.unproven("C09.O3", "xfer:%s:counter-local" % name, "%s: the announced count is not (one) named integer variable of the transfer routine (%s)" % (name, holders), node.where)
-            continue
-        holder = holders.pop()
-        fi, l, vname = holder
-        # arrivals at this X3 and at X2 nodes with the same stack prefix
-        for pk, e in preds.get(k, []):
-            val = arrival_local(g, e, fi, l)
-            check_counter_edge(chk, c, name, g, pk, e, val, fi, l, vname, x1, x2, "DataChunksSent")
-        for k2 in X["X2"]:
-            if k2[:fi + 1][:-1] != k[:fi + 1][:-1]:
-                continue
-            if attempts_of(k2) != attempts_of(k):
-                continue
+
+    def count_of(e):
+        m = c.ev.detach(e.state, e.value) if e.value is not None else None
+        if m is None or m[0] != "adt" or m[3] != "DataChunksSent":
+            return None
+        return inner_int(m[4][0])
+
+    for k2 in X["X2"]:
+        node2 = g.nodes[k2]
+        att = attempts_of(k2)
+        cands = [(i, l, nm) for (i, l, nm, fp) in named_locals(node2.state) if inner_int(local_at(node2.state, i, l)) is not None]
+        verdicts = {}
+        for (i, l, nm) in cands:
+            why = None
+            before = inner_int(local_at(node2.state, i, l))
+            # arrivals at this SendData node
             for pk, e in preds.get(k2, []):
-                val = arrival_local(g, e, fi, l)
-                check_counter_edge(chk, c, name, g, pk, e, val, fi, l, vname, x1, x2, "SendData")
+                val = inner_int(local_at(e.state, i, l))
+                if pk in x1:
+                    if not (val is not None and val[0] == "int" and val[1] == 0):
+                        why = "`%s` is %s, not 0, when the first chunk follows the acknowledged request" % (nm, fmt_term(val) if val else "?")
+                elif pk in x2:
+                    prev = inner_int(local_at(g.nodes[pk].state, i, l))
+                    if not is_plus_one(val, prev):
+                        why = "`%s` goes from %s to %s across one chunk" % (nm, fmt_term(prev) if prev else "?", fmt_term(val) if val else "?")
+                if why:
+                    break
+            # departures into the count message of the same attempt
+            if not why:
+                for e in node2.edges:
+                    if e.dst in x3:
+                        cnt = count_of(e)
+                        if not is_plus_one(cnt, before):
+                            why = "DataChunksSent announces %s after a chunk sent with `%s` = %s" % (fmt_term(cnt) if cnt else "?", nm, fmt_term(before))
+                            break
+            verdicts[(i, l, nm)] = why
+        good = [k_ for k_, w_ in verdicts.items() if w_ is None]
+        detail = None
+        if not good:
+            # report the most counter-like candidate: a u16/ChunkCount local
+            pref = [k_ for k_ in verdicts if "chunk" in k_[2] or "count" in k_[2] or "sent" in k_[2]] or list(verdicts)
+            detail = "; ".join(verdicts[k_] for k_ in pref[:2]) if pref else "no named integer variable in scope"
+        chk.ob("C09.O3", "%s: a counter variable is 0 after the ack, +1 per chunk sent, and is what DataChunksSent announces%s" % (name, " (`%s`)" % good[0][2] if good else ""), bool(good),
+               key="xfer:%s:counter" % name, where=node2.where, detail=detail)
+    # no chunk at all: the count announced right after the ack is 0
+    for k3 in X["X3"]:
+        for pk, e in preds.get(k3, []):
+            if pk in x1:
+                cnt = count_of(e)
+                ok = cnt is not None and cnt[0] == "int" and cnt[1] == 0
+                chk.ob("C09.O3", "%s: with nothing to send the announced count is 0" % name, ok, key="xfer:%s:counter-empty" % name, where=g.nodes[pk].where, detail=fmt_term(cnt) if cnt else "?")
 
 
 def attempts_of(k):
     return tuple(p[2] for p in k)
-
-
-def arrival_local(g, e, fi, l):
-    st = e.state
-    if st is None or fi >= len(st.stack):
-        return None
-    fid = st.stack[fi].fid
-    return st.frames[fid].get(l)
-
-
-def check_counter_edge(chk, c, name, g, pk, e, val, fi, l, vname, x1, x2, dstkind):
-    node = g.nodes[pk]
-    if pk in x1:
-        ok = val == mk_int(0, val[2]) if val and val[0] == "int" else False
-        chk.ob("C09.O3", "%s: `%s` is 0 when the first %s follows the acknowledged request" % (name, vname, dstkind), ok, key="xfer:%s:counter-init:%s" % (name, dstkind), where=node.where,
-               detail="value on arrival: %s" % (fmt_term(val) if val else "?"))
-    elif pk in x2:
-        prev = node.state.frames[fi].get(l) if fi < len(node.state.stack) else None
-        ok = False
-        if val is not None and prev is not None:
-            if prev[0] == "int" and val[0] == "int":
-                ok = val[1] == prev[1] + 1
-            else:
-                ok = val == ("app", "Add", (prev, mk_int(1, "u16")))
-        chk.ob("C09.O3", "%s: `%s` grows by exactly 1 per chunk sent (into %s)" % (name, vname, dstkind), ok, key="xfer:%s:counter-step:%s" % (name, dstkind), where=node.where,
-               detail="before %s, after %s" % (fmt_term(prev) if prev else "?", fmt_term(val) if val else "?"))
 
 
 # ==========================================================================================
